@@ -219,8 +219,9 @@ def check_open_accepts(rep, facts, a, rule='R14.2'):
     sbi = sp[0][0]
     idx = a.arg_val(sbi, 1)
     p = a.term_point(sbi)
-    if idx[0] == 'okval' and idx[1][0] == 'call' and idx[1][1] == 'core::option::Option::ok_or' and idx[1][2][0][0] == 'call' and \
-            idx[1][2][0][1] == 'core::num::<impl usize>::checked_sub' and idx[1][2][0][2][0] == ('len', ('param', 2)):
+    from .common import checked_sub_some
+    cs = checked_sub_some(a, facts, idx)
+    if cs is not None and cs[0] == ('len', ('param', 2)):
         rep.ok(rule, fn, 'open-accepts-every-split', 'checked_sub: rejected exactly when len < Nt')
         return
     if idx[0] == 'bin' and idx[1] == 'Sub' and idx[2] == ('len', ('param', 2)):
